@@ -593,6 +593,10 @@ pub fn gen_stream(rng: &mut Rng, cfg: ProdCfg) -> Stream {
     if giant && rng.chance(1, 400) {
         plant_dense_ids(rng, &mut stream);
     }
+    if giant && rng.chance(1, 400) {
+        plant_sparse_ids(rng, &mut stream);
+        return stream;
+    }
     if giant && rng.chance(1, 700) {
         plant_giant(rng, &mut stream);
         bound = stream.header.bound;
@@ -798,6 +802,50 @@ pub fn plant_dense_ids(rng: &mut Rng, stream: &mut Stream) {
         stream.insts.push(MInst { opcode: s.op("FunctionEnd"), rtype: None, rid: None, ops: vec![] });
     }
     stream.header.bound = next + 1;
+}
+
+/// Thousands of ids scattered over the whole 32-bit space, each an int / float type of one or two words, each consumed
+/// by a constant right after all declarations: any lossy cache, truncated key or hash shortcut in the id -> type map
+/// makes two of them collide with a good chance (birthday effect), and the literal width of one goes wrong.
+pub fn plant_sparse_ids(rng: &mut Rng, stream: &mut Stream) {
+    let s = snap();
+    let n = *rng.pick(&[600usize, 3_000, 3_000, 8_000]);
+    let at = stream.insts.iter().position(|i| i.is("Function")).unwrap_or(stream.insts.len());
+    let used: std::collections::BTreeSet<u32> = stream.insts.iter().filter_map(|i| i.rid).collect();
+    let mut ids = std::collections::BTreeSet::new();
+    while ids.len() < n {
+        let id = rng.word() | 0x0001_0000; // well away from the small ids of the rest of the module
+        if !used.contains(&id) && id < 0x7FFF_0000 {
+            ids.insert(id);
+        }
+    }
+    let ids: Vec<u32> = ids.into_iter().collect();
+    let mut decls = vec![];
+    let mut consts = vec![];
+    let mut next = 0x7FFF_0000u32;
+    let mut order: Vec<usize> = (0..ids.len()).collect();
+    rng.shuffle(&mut order);
+    for k in order {
+        let id = ids[k];
+        let two = rng.chance(1, 2);
+        let float = rng.chance(1, 3);
+        let w = if two { 64 } else if float { 32 } else { *rng.pick(&[8u32, 16, 32]) };
+        let mut ops = vec![MOp::W(s.k_lit32, w)];
+        if !float {
+            ops.push(MOp::W(s.k_lit32, 0));
+        }
+        decls.push(MInst { opcode: if float { s.op("TypeFloat") } else { s.op("TypeInt") }, rtype: None, rid: Some(id), ops });
+        let lit = if two { MOp::L64(0x1111_2222_3333_4444 ^ id as u64) } else { MOp::W(s.k_lit32, id ^ 0x5a5a) };
+        consts.push(MInst { opcode: s.op("Constant"), rtype: Some(id), rid: Some(next), ops: vec![lit] });
+        next = next.wrapping_add(1);
+    }
+    let mut j = 0;
+    for i in decls.into_iter().chain(consts) {
+        stream.insts.insert(at + j, i);
+        j += 1;
+    }
+    // (later hot spots take their ids from the bound upwards)
+    stream.header.bound = 0x7FFF_8000;
 }
 
 /// Structured control flow as real modules have it: half of the merge instructions name the label that follows
